@@ -248,6 +248,15 @@ FilteredClauses(c, begin, evs, stats) ==
      \cup (IF ~failedTransfer THEN {}
            ELSE IF anyDiffReported THEN {"C11.filteredTransferFailed/explainedByIncrementalMatcher"}
            ELSE {"C11.filteredTransferFailed"})
+     \* "exactly the filtered view": what is announced equals the naive evaluation of the (single) layer - matched
+     \* entries and their ancestors; explained when it equals the library's incremental evaluation instead
+     \cup (IF "naiveView" \notin DOMAIN begin \/ ~c.ended THEN {}
+           ELSE LET got == {stats[i].p : i \in DOMAIN stats}
+                    nv == {begin.naiveView[k] : k \in DOMAIN begin.naiveView}
+                    iv == {begin.incrView[k] : k \in DOMAIN begin.incrView}
+                IN IF got = nv THEN {}
+                   ELSE IF got = iv THEN {"C11.viewDiffersFromNaiveReference/explainedByIncrementalMatcher"}
+                   ELSE {"C11.viewDiffersFromNaiveReference"})
 
 \* ---- C19: metadata-only transfers ---------------------------------------------
 ListingName == << <<46, 102, 115, 117, 116, 105, 108, 45, 109, 101, 116, 97, 100, 97, 116, 97>> >>   \* ".fsutil-metadata"
@@ -303,7 +312,7 @@ HostileClauses(c, begin, e, stats) ==
       after == e.after
       late == {i \in DOMAIN stats : i >= firstBad /\ CleanInside(stats[i].raw)
                                     /\ ~\E j \in 1..(firstBad - 1) : stats[j].p = stats[i].p}
-  IN Cl(begin.outsideBefore # e.outsideAfter, "C03.outsideTouched")
+  IN Cl(begin.outsideBefore # e.outsideAfter \/ ("dstRootGone" \in DOMAIN e /\ e.dstRootGone), "C03.outsideTouched")
      \cup Cl((firstBad # 0 \/ c.rMustFail) /\ c.retR = "ok", "C03.invalidStreamAccepted")
      \* "applied" = the entry exists afterwards as a new or replaced inode.  A stale destination
      \* entry of that name that disappears is the (legitimate) effect of the valid prefix.
@@ -355,7 +364,11 @@ EndClauses(c, e) ==
          /\ ~(Len(stats) = Len(begin.src) /\ \A i \in DOMAIN begin.src : stats[i].p = begin.src[i].p /\ stats[i].t = begin.src[i].t),
          "C06.statPerViewEntry")
   \cup (IF c.realS /\ c.realR /\ c.faults = 0 /\ ~bothOK
-        THEN (IF "filtered" \in DOMAIN begin THEN {} ELSE {"C11.faultFreeTransferFailed"}) \cup {"C08.outcomeDependsOnSchedule"} ELSE {})
+        THEN (IF "filtered" \in DOMAIN begin THEN {}
+              \* a transfer the unchanged code completes: the outcome properties' antecedent ("both return success") has
+              \* become unreachable for this input, which is reported rather than passed over in silence
+              ELSE {"C11.faultFreeTransferFailed", "C01.faultFreeTransferFailed", "C02.faultFreeTransferFailed", "C05.faultFreeTransferFailed"})
+             \cup {"C08.outcomeDependsOnSchedule"} ELSE {})
   \cup (IF "hostile" \in DOMAIN begin /\ c.realR THEN HostileClauses(c, begin, e, stats) ELSE {})
   \cup (IF "filtered" \in DOMAIN begin THEN FilteredClauses(c, begin, evs, stats) ELSE {})
   \cup (IF c.metaOnly /\ c.realR THEN MetaClauses(c, begin, e, stats, view, notes) ELSE {})
